@@ -1,0 +1,59 @@
+//! Verification hook (only compiled with `--cfg jrsonnet_verif`): read-only copy of what the
+//! parser handed to the tree builder during the last `parse()` call on this thread.
+use std::cell::RefCell;
+
+use crate::{event::Event, lex::Lexeme, SyntaxKind};
+
+/// `Event` with its private payloads flattened (`0` = `None` for the `NonZeroUsize` offsets)
+#[derive(Clone, Debug, PartialEq, Eq)]
+pub enum VerifEvent {
+	Pending,
+	Start { kind: SyntaxKind, forward_parent: usize },
+	Token { kind: SyntaxKind },
+	Finish { wrapper: usize, error: bool },
+	Noop,
+}
+
+#[derive(Clone, Debug, Default)]
+pub struct ParseRecord {
+	/// events in the order `Parser::parse` returned them
+	pub events: Vec<VerifEvent>,
+	/// lexemes given to `Sink::new`: kind, byte start, byte end
+	pub lexemes: Vec<(SyntaxKind, u32, u32)>,
+}
+
+thread_local! {
+	static LAST: RefCell<Option<ParseRecord>> = const { RefCell::new(None) };
+}
+
+pub(crate) fn record(events: &[Event], lexemes: &[Lexeme<'_>]) {
+	let events = events
+		.iter()
+		.map(|e| match e {
+			Event::Pending => VerifEvent::Pending,
+			Event::Start {
+				kind,
+				forward_parent,
+			} => VerifEvent::Start {
+				kind: *kind,
+				forward_parent: forward_parent.map_or(0, |n| n.get()),
+			},
+			Event::Token { kind } => VerifEvent::Token { kind: *kind },
+			Event::Finish { wrapper, error } => VerifEvent::Finish {
+				wrapper: wrapper.map_or(0, |n| n.get()),
+				error: error.is_some(),
+			},
+			Event::Noop => VerifEvent::Noop,
+		})
+		.collect();
+	let lexemes = lexemes
+		.iter()
+		.map(|l| (l.kind, l.range.start().into(), l.range.end().into()))
+		.collect();
+	LAST.with(|c| *c.borrow_mut() = Some(ParseRecord { events, lexemes }));
+}
+
+/// the record of the last `parse()` on this thread (cleared by the call)
+pub fn take_last_parse() -> Option<ParseRecord> {
+	LAST.with(|c| c.borrow_mut().take())
+}
